@@ -41,6 +41,10 @@ type Prog struct {
 	Vaddr uint64 `json:"vaddr"`
 	Data  []byte `json:"data,omitempty"`
 	Memsz uint64 `json:"memsz"`
+	// Claim is added to p_filesz beyond len(Data): the header then claims
+	// file bytes which belong to whatever follows in the file, or lie past
+	// its end.
+	Claim uint64 `json:"claim,omitempty"`
 }
 
 // File is the description.
@@ -126,7 +130,7 @@ func (f File) Bytes() []byte {
 		le.PutUint64(ph[8:], progOff[i])
 		le.PutUint64(ph[16:], p.Vaddr)
 		le.PutUint64(ph[24:], p.Vaddr)
-		le.PutUint64(ph[32:], uint64(len(p.Data)))
+		le.PutUint64(ph[32:], uint64(len(p.Data))+p.Claim)
 		le.PutUint64(ph[40:], p.Memsz)
 		le.PutUint64(ph[48:], 1)
 		out.Write(ph)
@@ -153,4 +157,20 @@ func (f File) Bytes() []byte {
 	}
 	sh(shstrName, 3, 0, 0, strOff, uint64(strtab.Len()))
 	return out.Bytes()
+}
+
+// ProgFileBytes returns the bytes of the rendered file that program header i
+// designates: [p_offset, p_offset+p_filesz) cut at the end of the file.
+func ProgFileBytes(file []byte, i int) []byte {
+	le := binary.LittleEndian
+	ph := file[64+56*i:]
+	off, sz := le.Uint64(ph[8:]), le.Uint64(ph[32:])
+	if off > uint64(len(file)) {
+		return nil
+	}
+	end := off + sz
+	if end > uint64(len(file)) || end < off {
+		end = uint64(len(file))
+	}
+	return append([]byte{}, file[off:end]...)
 }
